@@ -104,7 +104,8 @@ def load_known():
 def finish(ctx, explanation, technique_rule, quiet=False):
     """Print the verdict lines, write evidence + violation files, return the exit code."""
     known = {k["key"]: k for k in load_known() if k.get("status") == "known"}
-    outdir = os.path.join(VERIF, "out", ctx.prop)
+    base = os.environ.get("VERIF_OUTDIR") or VERIF
+    outdir = os.path.join(base, "out", ctx.prop)
     os.makedirs(outdir, exist_ok=True)
     for fn in os.listdir(outdir):
         if fn.startswith("violation-"):
@@ -167,7 +168,7 @@ def finish(ctx, explanation, technique_rule, quiet=False):
         "wall_s": round(wall, 3),
         "violations": len(new),
     }
-    evdir = os.path.join(VERIF, "evidence")
+    evdir = os.path.join(base, "evidence")
     os.makedirs(evdir, exist_ok=True)
     with open(os.path.join(evdir, ctx.prop + ".json"), "w") as fh:
         json.dump(ev, fh, indent=1, default=str)
